@@ -175,6 +175,14 @@ pub fn o_extended(input: &[u8], p: &P) -> Out {
 		if g0.metadata != g.metadata || g0.gecko_codes != g.gecko_codes {
 			return Err(e("meta-differs", "metadata or gecko codes differ from the un-extended replay".into()));
 		}
+		// the skip_frames path takes the Game End size from the table as well
+		if g.end.is_some() {
+			let gs = read_slp(input, true, p.hash).map_err(|f| e(&format!("skip-read-failed:{}", f.key()), format!("a newer-version replay with longer payloads does not read with skip_frames: {}", f.describe())))?;
+			start_eq(&g.start, &gs.start, true).map_err(|m| e("skip-start-differs", m))?;
+			if gs.end != g.end || gs.metadata != g.metadata {
+				return Err(e("skip-end-differs", "skip_frames gives a different end/metadata for a newer-version replay".into()));
+			}
+		}
 		Ok(fnv_mix(g.frames.len() as u64, xx(&g.start.bytes.0)))
 	});
 	finish_out(&mut out, "extended_payloads", p, r);
